@@ -329,6 +329,23 @@ impl StorageEngine {
         }
     }
     
+    /// Value and remaining time to live of a live key, read under one lock acquisition, so the
+    /// pair belongs to one instant (a snapshot must not combine a value with the TTL the key
+    /// has after a later command or after it expired)
+    pub fn get_with_ttl(&self, db: DatabaseIndex, key: &[u8]) -> Result<Option<(Value, Option<Duration>)>> {
+        let shard = self.get_shard(db, key)?;
+        let shard_guard = shard.read().unwrap();
+        
+        match shard_guard.data.get(key) {
+            Some(stored_value) if !stored_value.is_expired() => {
+                let ttl = stored_value.metadata.expires_at
+                    .map(|expires_at| expires_at.saturating_duration_since(Instant::now()));
+                Ok(Some((stored_value.value.clone(), ttl)))
+            }
+            _ => Ok(None),
+        }
+    }
+    
     /// Get string value
     pub fn get_string(&self, db: DatabaseIndex, key: &[u8]) -> Result<Option<Vec<u8>>> {
         match self.get(db, key)? {
